@@ -46,6 +46,7 @@ func nodeID(kind string, i int) string {
 
 type fenv struct {
 	W     int
+	Wchk  int // the WorkerCount deployments are judged against (differs from W only in the binding self-test)
 	ev    *events
 	clock *hclock
 	job   *jobs.Job
@@ -191,7 +192,7 @@ func (s *fsplitter) Checkpoint() []byte                        { return []byte("
 // ------------------------------------------------------------------- env ----
 
 func newFenv(W int) (*fenv, error) {
-	e := &fenv{W: W, ev: newEvents(), nodes: map[string]*fnode{}, used: map[int]bool{}, reg: map[string]bool{}, age: map[string]int{},
+	e := &fenv{W: W, Wchk: W, ev: newEvents(), nodes: map[string]*fnode{}, used: map[int]bool{}, reg: map[string]bool{}, age: map[string]int{},
 		deploys: map[string]*ev{}, ckOps: map[uint64][]string{}, ckSrs: map[uint64][]string{}, opAcks: map[uint64]map[string]*snapshotpb.OperatorCheckpoint{},
 		published: map[uint64]bool{}, writing: map[uint64]*ev{}, idMap: map[int]uint64{}}
 	setCurrent(e.ev)
@@ -437,8 +438,8 @@ func (e *fenv) beginStart(d time.Duration) (*attempt, string) {
 // must contain every target; newest: the checkpoint the deployment must come from (0 = none); altNewest:
 // another acceptable one (a publication in flight).
 func (e *fenv) checkAttempt(a *attempt, regs []map[string]bool, newest []uint64) string {
-	if len(a.ops) != e.W || len(a.srs) != e.W {
-		return fmt.Sprintf("Deploy went to %d operators %v and %d source runners %v; WorkerCount is %d", len(a.ops), a.ops, len(a.srs), a.srs, e.W)
+	if len(a.ops) != e.Wchk || len(a.srs) != e.Wchk {
+		return fmt.Sprintf("Deploy went to %d operators %v and %d source runners %v; WorkerCount is %d", len(a.ops), a.ops, len(a.srs), a.srs, e.Wchk)
 	}
 	okReg := false
 	for _, r := range regs {
@@ -641,6 +642,17 @@ func replayFake(bi int, beh []mbt.Step, in *mbt.Input, res *mbt.Result) {
 		return
 	}
 	defer e.close()
+	e.Wchk = in.CfgInt("CheckW", W)
+	lenient := in.CfgBool("Lenient", false)
+	drifted := false
+	drift := func(format string, a ...any) {
+		if lenient { // schedules generated from a deviating model: leave the model, the epilogue judges by the property alone
+			drifted = true
+			res.Count("left_model", 1)
+			return
+		}
+		res.Driftf(format, a...)
+	}
 	viol := func(step int, known string, format string, a ...any) {
 		res.Violations = append(res.Violations, mbt.Violation{Property: in.Property, Behaviour: bi, Step: step, What: fmt.Sprintf(format, a...), Known: known})
 	}
@@ -669,7 +681,7 @@ func replayFake(bi int, beh []mbt.Step, in *mbt.Input, res *mbt.Result) {
 			if e.running {
 				viol(si, "", "the job keeps Running on assembly %v %v although a member is no longer registered and live (registry %v)", e.asmOps, e.asmSrs, keys(e.reg))
 			} else {
-				res.Driftf("behaviour %d step %d: the job left Running although every member of its assembly is registered and live", bi, si)
+				drift("behaviour %d step %d: the job left Running although every member of its assembly is registered and live", bi, si)
 			}
 			return false
 		}
@@ -702,7 +714,7 @@ func replayFake(bi int, beh []mbt.Step, in *mbt.Input, res *mbt.Result) {
 			if msg != "" {
 				viol(si, "", "unexpected start of an assembly: %s", msg)
 			} else {
-				res.Driftf("behaviour %d step %d: the job started an assembly the model does not start", bi, si)
+				drift("behaviour %d step %d: the job started an assembly the model does not start", bi, si)
 			}
 			ok = false
 			break
@@ -744,7 +756,7 @@ func replayFake(bi int, beh []mbt.Step, in *mbt.Input, res *mbt.Result) {
 				msrs = append(msrs, nodeID("sr", i))
 			}
 			if fmt.Sprint(mops) != fmt.Sprint(a.ops) || fmt.Sprint(msrs) != fmt.Sprint(a.srs) {
-				res.Driftf("behaviour %d step %d: assembly %v %v is valid but not the one the model picks (%v %v)", bi, si, a.ops, a.srs, mops, msrs)
+				drift("behaviour %d step %d: assembly %v %v is valid but not the one the model picks (%v %v)", bi, si, a.ops, a.srs, mops, msrs)
 				ok = false
 			}
 		case "DeployDone", "DeployFail":
@@ -797,7 +809,7 @@ func replayFake(bi int, beh []mbt.Step, in *mbt.Input, res *mbt.Result) {
 					ok = false
 				}
 			} else if id != 0 {
-				res.Driftf("behaviour %d step %d: tick created checkpoint %d while the model has one pending", bi, si, id)
+				drift("behaviour %d step %d: tick created checkpoint %d while the model has one pending", bi, si, id)
 				ok = false
 			}
 		case "SrCkpt", "OpBarrier":
@@ -807,7 +819,7 @@ func replayFake(bi int, beh []mbt.Step, in *mbt.Input, res *mbt.Result) {
 			}
 			ck, known := e.idMap[s.Int("id")]
 			if !known {
-				res.Driftf("behaviour %d step %d: no real id for model checkpoint %d", bi, si, s.Int("id"))
+				drift("behaviour %d step %d: no real id for model checkpoint %d", bi, si, s.Int("id"))
 				ok = false
 				break
 			}
@@ -823,7 +835,7 @@ func replayFake(bi int, beh []mbt.Step, in *mbt.Input, res *mbt.Result) {
 			}
 			if (rerr == nil) != ack.Bool("ok") {
 				if !ack.Bool("cur") {
-					res.Driftf("behaviour %d step %d: ack of %s for checkpoint %d (not of the running assembly): model ok=%v, job err=%v", bi, si, who, ck, ack.Bool("ok"), rerr)
+					drift("behaviour %d step %d: ack of %s for checkpoint %d (not of the running assembly): model ok=%v, job err=%v", bi, si, who, ck, ack.Bool("ok"), rerr)
 					ok = false
 					break
 				}
@@ -848,7 +860,7 @@ func replayFake(bi int, beh []mbt.Step, in *mbt.Input, res *mbt.Result) {
 		case "Publish":
 			ck, known := e.idMap[s.Int("id")]
 			if !known {
-				res.Driftf("behaviour %d step %d: no real id for model checkpoint %d", bi, si, s.Int("id"))
+				drift("behaviour %d step %d: no real id for model checkpoint %d", bi, si, s.Int("id"))
 				ok = false
 				break
 			}
@@ -861,7 +873,7 @@ func replayFake(bi int, beh []mbt.Step, in *mbt.Input, res *mbt.Result) {
 			ok = false
 		}
 	}
-	if !ok {
+	if !ok && !drifted {
 		return
 	}
 	if msg, known := e.epilogue(res); msg != "" {
